@@ -254,6 +254,11 @@ def build_driver(name):
         return exe
 
 
+# extra overlay entries per harness name ({"<path relative to repo>": "<absolute file>"}), set by a family's run()
+# before it calls standard_run (e.g. the runner family replaces the checked-in generated example by a fresh one)
+EXTRA_OVERLAYS = {}
+
+
 def build_harness(name, scratch, extra_overlay=None, tags=None, goarch=None):
     """Compile harness/<name>/ into /repo's current working tree through an overlay:
     *.go files become package main at <repo>/cmd/verif_<name>/; entries of overlay.json
@@ -272,7 +277,7 @@ def build_harness(name, scratch, extra_overlay=None, tags=None, goarch=None):
             if rel.startswith("cmd/verif_" + name + "/"):
                 continue
             ov.pop(os.path.join(REPO, "cmd", "verif_" + name, os.path.basename(src)), None)
-    for k, v in (extra_overlay or {}).items():
+    for k, v in list(EXTRA_OVERLAYS.get(name, {}).items()) + list((extra_overlay or {}).items()):
         ov[os.path.join(REPO, k)] = v
     ovp = os.path.join(scratch, "overlay-%s.json" % name)
     json.dump({"Replace": ov}, open(ovp, "w"))
@@ -460,6 +465,9 @@ def standard_run(res, harness, harness_args, driver, rule, assumptions,
     depend on the platform's int size; the model fixes every width explicitly).
     """
     res.corr_obligations = [corr_name or "impl = extracted model on every generated case (%s | %s)" % (harness, driver)]
+    if res.tier == "quick":
+        # a quick run takes 10-90 s; code under test that no longer terminates must not keep the check waiting for long
+        timeout = min(timeout, 600)
     scratch = scratch_dir()
     try:
         exe, log = build_harness(harness, scratch)
